@@ -423,9 +423,11 @@ Fixpoint reload (n : node) : option node :=
       | _, _ => None
       end
   | NUnop mid cname pn a =>
-      (* ModifiedPrior.dict() leaves a bare Prior operand unserialised: json.dumps raises *)
-      if is_prior a then None
-      else match reload a with Some a' => Some (NUnop mid cname pn a') | None => None end
+      (* a ModifiedPrior never survives: ModifiedPrior.dict() leaves a bare Prior operand unserialised
+         (json.dumps raises); with any other operand ModelObject.from_dict swallows a KeyError and the
+         attribute silently keeps what the constructor of the model put there (a default prior, or the
+         ConfigException placeholder whose walk raises) *)
+      None
   | NModel mid lbl cls cargs attrs =>
       match all_some ((fix go (l : list (string * node)) : list (string * option node) :=
                          match l with [] => [] | kv :: r => match kv with (k, v) => (k, reload v) :: go r end end) attrs) with
